@@ -22,10 +22,8 @@
                        leaf/node check on the normalised paths; the copy still uses the raw strings
      F21 [a52f9e0] [walk_files] / [export_zip_step]: a directory member for every empty directory;
                    [zip_copy_one]: a member whose name ends with '/' becomes a directory
-   STILL OPEN:
-     F20' a path that normalises to the export root ('.' or '') next to other jobs is accepted, and
-          the copy uses the un-normalised string (os.makedirs on 'a/x/../y' creates 'a/x')
-                                                                              : [export_paths], [fs_copytree_lex]
+     F20' [3224fe9] [export_paths]: a path that is the target itself ('' / '.') next to other jobs is refused
+          [54a5f4b] [export_model]: the writers get the normalised path
 *)
 From Coq Require Import String Ascii.
 From SV Require Import Base Json MD5 Canon.
@@ -262,7 +260,9 @@ Record oracle := {
   o_frepr : list (fl * str);             (* float.__repr__ *)
   o_text : list (bool * json * str);     (* (true, list)  -> str(tuple(list))   (index keys)
                                             (false, list) -> format(list, '')   (format fields) *)
-  o_parse : list (str * json)            (* json.loads of the state point files that occur *)
+  o_parse : list (str * json);           (* json.loads of the state point files that occur *)
+  o_rel : bool                           (* the directory target is given as a relative path with a single
+                                            component ('exp', cwd = its parent) instead of an absolute path *)
 }.
 
 Fixpoint ftab_get (t : list (fl * str)) (f : fl) : str :=
@@ -397,15 +397,26 @@ Definition idx_le (a b : list str * list slot) : bool :=
 Fixpoint idx_ins (x : list str * list slot) (l : list (list str * list slot)) :=
   match l with [] => [x] | y :: r => if idx_le x y then x :: l else y :: idx_ins x r end.
 
-Definition is_const (n : nat) (sl : list slot) : bool :=
-  match sl with [(_, ids)] => Nat.eqb (length ids) n | _ => false end.
+(* is_const(key) of _build_job_statepoint_index (e6bcbe6): one slot holding all jobs; if that slot is the
+   mapping placeholder, only if no dotted key extends the key (all the mappings are empty) *)
+Definition is_const (n : nat) (keys : list (list str)) (e : list str * list slot) : bool :=
+  match snd e with
+  | [(v, ids)] =>
+      Nat.eqb (length ids) n &&
+      match v with
+      | Some _ => true
+      | None => negb (existsb (fun k => negb (fpath_eqb k (fst e)) &&
+                                        match strip_prefix (fst e) k with Some _ => true | None => false end) keys)
+      end
+  | _ => false
+  end.
 
 (* _build_job_statepoint_index(exclude_const=True): (key, slots without the placeholder) in order *)
 Definition statepoint_index (jobs : list job) : list (list str * list slot) :=
   let keys := kdedup (flat_map (fun j => filter (fun k => match k with [] => false | _ => true end) (dkeys (j_sp j) [])) jobs) in
   let idx := fold_right idx_ins [] (List.map (fun k => (k, build_index jobs k)) keys) in
   List.map (fun e => (fst e, filter (fun s => match fst s with None => false | _ => true end) (snd e)))
-           (filter (fun e => negb (is_const (length jobs) (snd e))) idx).
+           (filter (fun e => negb (is_const (length jobs) keys e)) idx).
 
 (* the [paths] dict of _make_schema_based_path_function for one job id *)
 Definition job_tokens (o : oracle) (idx : list (list str * list slot)) (excl : list str) (id : str)
@@ -519,6 +530,8 @@ Definition export_paths (o : oracle) (jobs : list job) (p : pathspec) : res (lis
   let ns := List.map norm_dst ds in
   if existsb leaves_target ns then RExn ERuntimeError
   else if has_dup ns then RExn ERuntimeError
+  else if Nat.leb 2 (length ns) && existsb (fun n => is_empty n || str_eqb n dot) ns
+       then RExn ERuntimeError                      (* 3224fe9: the target itself, next to other jobs *)
   else if check_dirs ns then ROk ds else RExn ERuntimeError.
 
 (* ------------------------------------------------------------------ writers *)
@@ -555,9 +568,13 @@ Definition fold_partial {A B} (step : A -> B -> res A) (l : list B) (a0 : A) : p
 
 (* export_to_directory: _mkdir_p(dirname(normpath(join(target, dst)))); shutil.copytree(src, join(target, dst)).
    F19 lives here: [resolve] follows '..' out of the target and nothing checks containment. *)
-Definition export_dir_step (f : fs) (jd : job * str) : res (fs * option exn) :=
+Definition REL_TARGET : str := S "exp".
+Definition export_dir_step (rel : bool) (f : fs) (jd : job * str) : res (fs * option exn) :=
   let '(j, dst) := jd in
   let full := pjoin2 TARGET_STR dst in
+  (* a relative one-component target whose job path is the target itself: _mkdir_p('') raises
+     FileNotFoundError before anything is created *)
+  if rel && is_empty (dirname (normpath (pjoin2 REL_TARGET dst))) then ROk (f, Some EOSError) else
   match resolve [] (dirname (normpath full)) with
   | Some par => do g <- fs_mkdir_p par f; fs_copytree_lex (j_files j) [] full g
   | None => ROod
@@ -619,9 +636,11 @@ Definition export_model (o : oracle) (jobs : list job) (k : tkind) (p : pathspec
   | RExn e => {| eo_exn := Some e; eo_ood := false; eo_map := []; eo_art := empty |}
   | ROod => {| eo_exn := None; eo_ood := true; eo_map := []; eo_art := empty |}
   | ROk ds =>
-      let jds := combine jobs ds in
+      (* 54a5f4b: every job is copied to the normalised path that was checked; the mapping that is
+         returned still shows the paths as written *)
+      let jds := combine jobs (List.map norm_dst ds) in
       match k with
-      | KDir => let r := fold_partial2 export_dir_step jds fs0 in
+      | KDir => let r := fold_partial2 (export_dir_step (o_rel o)) jds fs0 in
                 {| eo_exn := p_exn r; eo_ood := p_ood r; eo_map := ds; eo_art := ADir (p_val r) |}
       | KZip => let r := fold_partial (export_zip_step (o_asc o)) jds [] in
                 {| eo_exn := p_exn r; eo_ood := p_ood r; eo_map := ds; eo_art := AZip (p_val r) |}
